@@ -7,6 +7,10 @@ bad = 0
 for p in sys.argv[1:]:
     r = subprocess.run(["/verif/tools/seedcheck.py", p, ALL], capture_output=True, text=True)
     lines = r.stdout.splitlines()
+    if "PATCH FAILED" in r.stdout or r.returncode == 3:
+        print("%s: PATCH-FAILED (re-express on the current tree)" % p, flush=True)
+        bad += 1
+        continue
     alarms = []
     cur = None
     for l in lines:
